@@ -263,7 +263,7 @@ do_case(const struct rc_day *p, int c, struct dt_dt_s v, int u, int n, const str
 			cal_text(c, p, text, sizeof(text));
 			snprintf(dtxt, sizeof(dtxt), "%+d%s", n, unit_name[u]);
 			snprintf(cas, sizeof(cas), "%d %d %d %d", c, u, n, p->rd);
-			dadd_cmd(cmd, sizeof(cmd), c, text, dtxt, o == O_F ? "%F" : NULL);
+			const char *cmdp = dadd_cmd(cmd, sizeof(cmd), c, text, dtxt, o == O_F ? "%F" : NULL);
 			if (o == O_DAISY) {
 				snprintf(exp, sizeof(exp), "%d", tg.rd + 1);
 			} else if (o == O_DFLT) {
@@ -271,7 +271,7 @@ do_case(const struct rc_day *p, int c, struct dt_dt_s v, int u, int n, const str
 			} else {
 				snprintf(exp, sizeof(exp), "%04d-%02d-%02d", t->y, t->m, t->d);
 			}
-			ex_viol(key, (double)tg.rd, cas, o == O_DAISY ? NULL : cmd,
+			ex_viol(key, (double)tg.rd, cas, o == O_DAISY ? NULL : cmdp,
 				"%04d-%02d-%02d given as '%s' (%s) %s: %s observation is '%s'; keeping the %s and cropping to the end%s gives %04d-%02d-%02d = '%s'",
 				p->y, p->m, p->d, text, cal_name[c], dtxt, obs_name[o], got[o],
 				c == C_YMD ? "day of the month" : c == C_YMCW ? "weekday and count" : c == C_BIZDA ? "business-day index" :
